@@ -854,6 +854,7 @@ pub fn duration_to_formattable(
 // TODO: Update, optimize, and fix the below. is_valid_duration should probably be generic over a T.
 
 const TWO_POWER_FIFTY_THREE: i128 = 9_007_199_254_740_992;
+const TWO_POWER_THIRTY_TWO: f64 = 4_294_967_296.0;
 
 // NOTE: Can FiniteF64 optimize the duration_validation
 /// Utility function to check whether the `Duration` fields are valid.
@@ -900,15 +901,15 @@ pub(crate) fn is_valid_duration(
         }
     }
     // 3. If abs(years) ≥ 2**32, return false.
-    if years.abs() >= f64::from(u32::MAX) {
+    if years.abs() >= TWO_POWER_THIRTY_TWO {
         return false;
     };
     // 4. If abs(months) ≥ 2**32, return false.
-    if months.abs() >= f64::from(u32::MAX) {
+    if months.abs() >= TWO_POWER_THIRTY_TWO {
         return false;
     };
     // 5. If abs(weeks) ≥ 2**32, return false.
-    if weeks.abs() >= f64::from(u32::MAX) {
+    if weeks.abs() >= TWO_POWER_THIRTY_TWO {
         return false;
     };
 
